@@ -248,6 +248,22 @@ def rows_from_logs(tier: str, rng: random.Random, stats: dict) -> list[Row]:
 
 
 def observe(rows: list[Row], stats: dict) -> list[dict]:
+    # every third exchange once more behind an enforced known list that names its devices but not the gateway: the
+    # state machine must be handed its echo and reply whatever the receive-side device filter thinks of them
+    extra = []
+    for n, r in enumerate(rows):
+        if n % 3 == 0 and r.sc.cmd_frame[7:9] == "18":
+            sc2 = x.Scenario(r.sc.cmd_frame, r.sc.gw, r.sc.wait, list(r.sc.frames), flt="known")
+            extra.append(Row(r.fam, r.m, r.c, r.csrc, r.gw, r.wait, r.pk, sc2, r.variant + "+flt"))
+        # ... and behind a gateway whose id the transport never learns (the echo then comes from an 18: id that is
+        # neither listed nor known to be the gateway): requests / writes from the placeholder to a device
+        # (echo-only exchanges: with the gateway's id unknown a reply addressed to it cannot be told from anybody's)
+        if (n % 2 == 1 and r.sc.cmd_frame[7:16] == HGI and r.sc.cmd_frame[:2] in ("RQ", " W") and r.sc.gw != HGI
+                and not r.sc.wait and r.pk and all(p["kind"] == "echo" for p in r.pk)):
+            sc3 = x.Scenario(r.sc.cmd_frame, r.sc.gw, r.sc.wait, list(r.sc.frames), flt="known+nogw")
+            extra.append(Row(r.fam, r.m, r.c, r.csrc, r.gw, r.wait, r.pk, sc3, r.variant + "+flt-nogw"))
+    stats["rows_behind_enforced_known_list"] = len(extra)
+    rows.extend(extra)
     stats["loop_exceptions"] = x.run_scenarios([r.sc for r in rows])
     dropped = [r for r in rows if r.sc.ret < 0]
     stats["rows_dropped_unbuildable"] = len(dropped)
@@ -269,7 +285,7 @@ def observe(rows: list[Row], stats: dict) -> list[dict]:
 
 def replay_obj(r: Row) -> dict:
     return {"cmd": r.sc.cmd_frame, "gw": r.gw, "wait": r.wait, "frames": r.sc.frames,
-            "kinds": [f"{p['kind']}:{p['dim']}" for p in r.pk], "variant": r.variant}
+            "kinds": [f"{p['kind']}:{p['dim']}" for p in r.pk], "variant": r.variant, "flt": r.sc.flt}
 
 
 CLAUSES = {"a": "a.hdr", "b": "b.hdr", "c": "c.hdr", "h": "drift.hdr", "A": "a.fsm", "B": "b.fsm", "C": "c.fsm",
@@ -321,7 +337,7 @@ def judge(chk: Check, rows: list[Row], items: list[dict], workers: int, stats: d
 def do_replay(path: str) -> None:
     obj = json.load(open(path))
     rp = obj.get("replay", obj)
-    sc = x.Scenario(rp["cmd"], rp["gw"], rp["wait"], rp["frames"])
+    sc = x.Scenario(rp["cmd"], rp["gw"], rp["wait"], rp["frames"], flt=rp.get("flt", ""))
     n_exc = x.run_scenarios([sc])
     print(f"command   {sc.cmd_frame!r}  gateway={sc.gw} wait_for_reply={sc.wait}")
     print(f"tx_header {sc.txh}\nrx_header {sc.rxh}")
